@@ -6,6 +6,8 @@ import (
 	"fmt"
 	"os"
 	"path/filepath"
+	"runtime/debug"
+	"runtime/pprof"
 	"strconv"
 	"strings"
 	"time"
@@ -68,7 +70,15 @@ func main() {
 	solver := flag.String("solver", "z3-new", "solver")
 	params := flag.String("params", "", "k=v,k=v harness parameters")
 	verbose := flag.Bool("v", false, "verbose")
+	asserts := flag.String("asserts", "", "comma separated assertion-id prefixes to check (default all)")
+	cpuprof := flag.String("cpuprofile", "", "write cpu profile")
 	flag.Parse()
+	debug.SetGCPercent(800)
+	if *cpuprof != "" {
+		pf, _ := os.Create(*cpuprof)
+		pprof.StartCPUProfile(pf)
+		defer pprof.StopCPUProfile()
+	}
 
 	t0 := time.Now()
 	prog, spkgs, err := load(*repo, strings.Split(*overlay, ","), strings.Split(*pkgsFlag, ","))
@@ -109,10 +119,21 @@ func main() {
 		ex.SolverName = *solver
 		ex.Params = pm
 		ex.Verbose = *verbose
+		if *asserts != "" {
+			ex.AssertPrefixes = strings.Split(*asserts, ",")
+		}
 		if *wall > 0 {
 			ex.Deadline = time.Now().Add(time.Duration(*wall) * time.Second)
 		}
+		if os.Getenv("GOSYM_SITES") != "" {
+			ex.SiteStats = map[string]int{}
+		}
 		s := ex.Run()
+		if ex.SiteStats != nil {
+			for k, v := range ex.SiteStats {
+				fmt.Fprintf(os.Stderr, "SITE %8d %s\n", v, k)
+			}
+		}
 		sums = append(sums, s)
 		fmt.Fprintf(os.Stderr, "[%s] paths=%d ends=%v queries=%d asserts=%d violations=%d inconclusive=%d wall=%.1fs solver=%.1fs\n",
 			fname, s.Paths, s.Ends, s.Queries, s.Asserts, len(s.Violations), len(s.Inconclusive), s.WallS, s.SolverTimeS)
